@@ -69,10 +69,10 @@ Proof.
 Qed.
 
 (* glyphs decoded from a transformed table are parsed records: their xMin is readable *)
-Lemma encoded_glyphs_readable : forall m gs cs,
-  Forall2 (encodes_glyph m) gs cs -> Forall xmin_readable gs.
+Lemma encoded_glyphs_readable : forall gs cs,
+  Forall2 encodes_glyph gs cs -> Forall xmin_readable gs.
 Proof.
-  intros m gs cs H. induction H as [|g c gs cs Hg _ IH]; constructor; [|exact IH].
+  intros gs cs H. induction H as [|g c gs cs Hg _ IH]; constructor; [|exact IH].
   destruct Hg; exact I.
 Qed.
 
@@ -89,7 +89,7 @@ Definition rebuilt_tag (tag : Z) : bool :=
 Theorem transformed_font_tables_partial :
   forall m ts flavor index gs h flags gt lt ht hdt mt hht head long G offs L,
   Forall tabspec_ok ts -> NoDup (map t_tag ts) ->
-  In gt ts -> t_tag gt = tag_glyf -> t_transformed gt = true -> encodes_glyf_table m gs (t_data gt) ->
+  In gt ts -> t_tag gt = tag_glyf -> t_transformed gt = true -> encodes_glyf_table gs (t_data gt) ->
   In lt ts -> t_tag lt = tag_loca -> t_transformed lt = true ->
   In ht ts -> t_tag ht = tag_hmtx -> t_transformed ht = true ->
   encodes_hmtx_flags flags gs h (t_data ht) -> Z.land flags 2 = 0 -> hmtx_ok gs h ->
@@ -125,7 +125,7 @@ Proof.
   rewrite (glyf_transform_roundtrip m gs _ Hglyf). cbn [bind].
   rewrite Dh. cbn [bind].
   destruct Hglyf as (cs & bm & ifmt & oflags & Hcs & _).
-  rewrite (hmtx_transform_roundtrip flags gs h _ Hhok (encoded_glyphs_readable m gs cs Hcs) Hhmtx Hbit). cbn [bind].
+  rewrite (hmtx_transform_roundtrip flags gs h _ Hhok (encoded_glyphs_readable gs cs Hcs) Hhmtx Hbit). cbn [bind].
   rewrite Wg. cbn [bind]. rewrite Wl. cbn [bind app].
   pose proof (entries_data_all ts [] [] Hok) as Hd. cbn [app] in Hd. rewrite app_nil_r in Hd.
   change (len (block_of [])) with 0 in Hd.
